@@ -10,7 +10,9 @@ package scan
 //  3. rejection of sizes outside 1..2^32+60
 
 import (
+	"context"
 	"fmt"
+	"net"
 	"math/big"
 	"math/bits"
 	"math/rand"
@@ -351,4 +353,80 @@ func TestVerifC04(t *testing.T) {
 		c04prefix(run, c, run.Pick(200000, 2000000))
 	}
 	run.Count("max_rows_exercised_in_a_batch", int64(len(rows)))
+	// 4. the iteration as its users drive it: the port generator and the address generator compute the
+	// range size themselves (boundary sizes: 1, 2^16-1, 2^16 = ports 0-65535, a /16 and a /15 of addresses)
+	if run.Batch() == 0 {
+		for _, pr := range [][2]uint16{{0, 65535}, {1, 65535}, {0, 0}, {65535, 65535}, {0, 32767}, {32768, 65535}, {0, 65534}, {80, 80}, {1023, 1025}} {
+			seen := make([]uint8, 65536)
+			ctx, cancel := context.WithTimeout(context.Background(), 60*time.Second)
+			ch, err := NewPortGenerator().Ports(ctx, &Range{Ports: []*PortRange{{StartPort: pr[0], EndPort: pr[1]}}})
+			count, bad := 0, ""
+			if err != nil {
+				bad = "generator refused the range: " + err.Error()
+			} else {
+				for pg := range ch {
+					port, err := pg.GetPort()
+					if err != nil {
+						bad = "error instead of a port: " + err.Error()
+						continue
+					}
+					count++
+					if port < pr[0] || port > pr[1] {
+						bad = fmt.Sprintf("port %d outside the range", port)
+					}
+					if seen[port]++; seen[port] > 1 {
+						bad = fmt.Sprintf("port %d produced twice", port)
+					}
+				}
+			}
+			cancel()
+			want := int(pr[1]) - int(pr[0]) + 1
+			if bad == "" && count != want {
+				bad = fmt.Sprintf("%d ports produced, %d expected", count, want)
+			}
+			run.Eval(1)
+			if bad != "" {
+				run.Violation("port-range-iteration", fmt.Sprintf("port range %d-%d (size %d): %s", pr[0], pr[1], want, bad), pr)
+			}
+			run.Count("port_range_iterations_checked", 1)
+		}
+		for _, sn := range []string{"10.0.0.0/16", "10.2.0.0/15", "10.0.0.7/32", "255.255.255.254/31", "0.0.0.0/17"} {
+			_, ipnet, _ := net.ParseCIDR(sn)
+			ones, _ := ipnet.Mask.Size()
+			want := 1 << uint(32-ones)
+			seen := map[uint32]bool{}
+			ctx, cancel := context.WithTimeout(context.Background(), 120*time.Second)
+			ch, err := NewIPGenerator().IPs(ctx, &Range{DstSubnet: ipnet})
+			bad := ""
+			if err != nil {
+				bad = "generator refused the subnet: " + err.Error()
+			} else {
+				for ig := range ch {
+					a, err := ig.GetIP()
+					if err != nil {
+						bad = "error instead of an address: " + err.Error()
+						continue
+					}
+					a4 := a.To4()
+					v := uint32(a4[0])<<24 | uint32(a4[1])<<16 | uint32(a4[2])<<8 | uint32(a4[3])
+					if !ipnet.Contains(a) {
+						bad = fmt.Sprintf("address %v outside %s", a, sn)
+					}
+					if seen[v] {
+						bad = fmt.Sprintf("address %v produced twice", a)
+					}
+					seen[v] = true
+				}
+			}
+			cancel()
+			if bad == "" && len(seen) != want {
+				bad = fmt.Sprintf("%d addresses produced, %d expected", len(seen), want)
+			}
+			run.Eval(1)
+			if bad != "" {
+				run.Violation("subnet-iteration", fmt.Sprintf("subnet %s: %s", sn, bad), sn)
+			}
+			run.Count("subnet_iterations_checked", 1)
+		}
+	}
 }
